@@ -1073,6 +1073,11 @@ func (in *Interp) assert(c *term.Term, label string) {
 			res, model, solver = smt.Sat, in.model, "model-reuse"
 		}
 	}
+	if solver == "" && StopOnSat {
+		if m := in.randomWitness(c, 3); m != nil {
+			res, model, solver = smt.Sat, m, "random-witness"
+		}
+	}
 	if solver == "" {
 		res, model, solver = in.check(term.BNot(c), true)
 	}
